@@ -1,4 +1,5 @@
-import Lm.Inv.C12WF
+import Lm.Inv.C12VisitList
+import Lm.Inv.C12Old
 /-!
 # C12 — Queue, stack, list keep their order discipline under all ops and iterators
 
@@ -71,5 +72,108 @@ theorem C12_len_exact {k : Kind} {s : St} (h : WellFormed k s) :
   cases ho : s.obj with
   | none => rfl
   | some q => simp [cLen, content, ho, (h.cont q ho).1, vals]
+
+/-! ## Iterators visit every remaining element exactly once, in container order
+
+`visited log` lists the *node identities* an iterator was positioned on by `itr_new` / `itr_next`
+(the harness prints the value of each as a `cur` line, so this sequence is compared with the
+library on every run).  An iteration is `it new` followed by any interleaving of
+`it next / it get / it set / it rm` (list: also `it ins`) and calls that do not modify the container
+(`Op.inIteration`); it starts in any reachable state with a non-empty container. -/
+
+/-- Queue: whatever is read, replaced or removed through the iterator and wherever (first, middle,
+last element), the nodes visited are exactly the first `n` nodes the queue had when the iterator
+was created, in queue order, each once; when the iterator has reached the end (`itr = none`) that
+is all of them.  The queue then consists of those visited nodes that were not removed, in their
+old order, followed by the nodes not yet visited. -/
+theorem C12_queue_iterator_visits_each_once (dtor : Bool) (before : List Queue.Op)
+    (hb : Queue.okRun (Queue.new dtor) before = true) (q0 : Cont)
+    (h0 : (Queue.run (Queue.new dtor) before).obj = some q0) (hne : q0.chain ≠ [])
+    (ops : List Queue.Op) (hops : ops.all Queue.Op.inIteration = true) :
+    let s0 := Queue.run (Queue.new dtor) before
+    let s := Queue.run (Queue.step s0 .itNew).1 ops
+    ∃ n q, visited s.log = visited s0.log ++ (ids q0.chain).take n ∧ (s.itr = none → n = (ids q0.chain).length) ∧
+      s.obj = some q ∧ (ids q.chain).Sublist (ids q0.chain) ∧
+      ∃ kept, kept.Sublist ((ids q0.chain).take n) ∧ ids q.chain = kept ++ (ids q0.chain).drop n := by
+  intro s0 s
+  have hR := (Queue.run_R before (Queue.init_R dtor) hb).1
+  exact (Queue.vis_run ops (vis_itrNew hR h0 hne) hops).result
+
+/-- Stack: the same statement. -/
+theorem C12_stack_iterator_visits_each_once (dtor : Bool) (before : List Stack.Op)
+    (hb : Stack.okRun (Stack.new dtor) before = true) (q0 : Cont)
+    (h0 : (Stack.run (Stack.new dtor) before).obj = some q0) (hne : q0.chain ≠ [])
+    (ops : List Stack.Op) (hops : ops.all Stack.Op.inIteration = true) :
+    let s0 := Stack.run (Stack.new dtor) before
+    let s := Stack.run (Stack.step s0 .itNew).1 ops
+    ∃ n q, visited s.log = visited s0.log ++ (ids q0.chain).take n ∧ (s.itr = none → n = (ids q0.chain).length) ∧
+      s.obj = some q ∧ (ids q.chain).Sublist (ids q0.chain) ∧
+      ∃ kept, kept.Sublist ((ids q0.chain).take n) ∧ ids q.chain = kept ++ (ids q0.chain).drop n := by
+  intro s0 s
+  have hR := (Stack.run_R before (Stack.init_R dtor) hb).1
+  exact (Stack.vis_run ops (vis_itrNew hR h0 hne) hops).result
+
+/-- List (the iterator can also insert, and after a removal it can remove elements it has not
+visited): no node is ever visited twice; when the iterator has reached the end, every node that was
+in the list when the iterator was created and is still there has been visited, and the visited nodes
+still present stand in the list in the order in which they were visited. -/
+theorem C12_list_iterator_visits_each_once (eq : Val → Val → Bool) (dtor cmp : Bool) (before : List ListM.Op)
+    (hb : ListM.okRun eq (ListM.new dtor cmp) before = true) (q0 : Cont)
+    (h0 : (ListM.run eq (ListM.new dtor cmp) before).obj = some q0) (hne : q0.chain ≠ [])
+    (ops : List ListM.Op) (hops : ops.all ListM.Op.inIteration = true) :
+    let s0 := ListM.run eq (ListM.new dtor cmp) before
+    let s := ListM.run eq (ListM.step eq s0 .itNew).1 ops
+    ∃ vis q, visited s.log = visited s0.log ++ vis ∧ s.obj = some q ∧ vis.Nodup ∧
+      (s.itr = none →
+        (∀ x ∈ ids q.chain, x ∈ ids q0.chain → x ∈ vis) ∧
+        (ids q.chain).filter (fun x => decide (x ∈ vis)) = vis.filter (fun x => decide (x ∈ ids q.chain))) := by
+  intro s0 s
+  have hR := (ListM.run_R eq before (ListM.init_R dtor cmp) hb).1
+  exact (ListM.lvis_run eq ops (ListM.lvis_itrNew hR h0 hne) hops).result
+
+/-! ## Non-vacuity: concrete histories -/
+
+/-- queue: remove the last element through an iterator, keep using the queue (the D-12a scenario) -/
+def demoQ : List Queue.Op :=
+  [.enq 5, .enq 6, .enq 7, .itNew, .itNext, .itSet 9, .itNext, .itRm, .itNext, .enq 8, .deq, .rm, .deq, .deq, .len]
+
+example : Queue.okRun (Queue.new true) demoQ = true := by decide
+example : Queue.trace (Queue.new true) demoQ =
+    [.int 0, .int 0, .int 0, .handle true, .int 0, .int 0, .int 0, .int 0, .int 0, .int 0,
+     .ptr 5, .int 0, .ptr 8, .ptr 0, .int 0] := by decide
+example : (Queue.run (Queue.new true) demoQ).log =
+    [.cur (some ⟨0, 5⟩), .cur (some ⟨1, 6⟩), .cur (some ⟨2, 7⟩), .dtor 7, .dtor 9] := by decide
+
+/-- list with comparator `v % 8`: insertion through the iterator, removal of inserted and current -/
+def demoL : List ListM.Op :=
+  [.ins 1, .ins 2, .ins 9, .itNew, .itIns 5, .itNext, .itRm, .itIns 4, .itNext, .itNext, .find 17, .rm 17, .len]
+
+example : ListM.okRun (fun a b => a % 8 == b % 8) (ListM.new true true) demoL = true := by decide
+example : content (ListM.run (fun a b => a % 8 == b % 8) (ListM.new true true) demoL) = [5, 4, 2] := by decide
+example : visited (ListM.run (fun a b => a % 8 == b % 8) (ListM.new true true) demoL).log = [2, 0, 1] := by decide
+
+/-! ## The unrepaired code does not satisfy the theorems (the invariants are not vacuous)
+
+With `m_queue_itr_remove` / `m_list_itr_next` as they were before the fix commits
+(`Lm.Inv.C12Old`), legal histories break the well-formedness invariant resp. visit an element twice. -/
+
+/-- D-12a: after removing the last of two elements through the iterator the tail pointer is NULL
+although the queue is not empty; the next enqueue is lost and the second dequeue dereferences NULL -/
+theorem C12_D12a_unfixed_fails :
+    let ops : List Queue.Op := [.enq 1, .enq 2, .itNew, .itNext, .itRm, .itNext, .enq 3, .deq, .deq]
+    Queue.okRun (Queue.new false) ops = true ∧
+    (∃ q, (Queue.runOld (Queue.new false) (ops.take 5)).obj = some q ∧ q.chain ≠ [] ∧ q.tail = none) ∧
+    (Queue.runOld (Queue.new false) ops).fault = true ∧
+    (Queue.run (Queue.new false) ops).fault = false := by
+  refine ⟨by decide, ⟨_, rfl, by decide, by decide⟩, by decide, by decide⟩
+
+/-- D-12b: after an insertion through the iterator the old `m_list_itr_next` visits node 0 twice -/
+theorem C12_D12b_unfixed_fails :
+    let ops : List ListM.Op := [.ins 1, .itNew, .itIns 2, .itNext]
+    let eq : Val → Val → Bool := fun a b => a == b
+    ListM.okRun eq (ListM.new false false) ops = true ∧
+    visited (ListM.runOld eq (ListM.new false false) ops).log = [0, 0] ∧
+    visited (ListM.run eq (ListM.new false false) ops).log = [0] := by
+  refine ⟨by decide, by decide, by decide⟩
 
 end Lm.Props.C12
